@@ -62,6 +62,51 @@ PROPS['C03'] = {
     'technique': 'SMT-driven cube-and-conquer over the SSA of the real scoring code: solver-enumerated frontier cubes (AllSAT + coverage certificate), solver-folded floating point per cube, exact-rational specification oracle',
     'assumptions': ['oracle: /verif/spec/cvss_spec.py, exact rational transcription of the FIRST v3.0/v3.1 equations'],
 }
+PROPS['C05'] = {
+    'level': 'proof',
+    'pkgs': ['h20'],
+    'text': 'v2.0 BaseScore, TemporalScore, EnvironmentalScore equal the exact-rational evaluation of the guide equations rounded to one decimal (either neighbour on exact ties), Impact/Exploitability within 1e-9, on every reachable object. ' + FP_NOTE,
+    'bounds': 'none: complete over the 139,968,000 v2.0 objects (all frontier cubes enumerated, coverage certified by the solver)',
+    'solvers': {'quick': ['z3'], 'thorough': ['z3']},
+    'per_harness': {'.': {'handler': 'fp_tabulate'}},
+    'technique': PROPS['C03']['technique'],
+    'assumptions': ['oracle: /verif/spec/cvss_spec.py, exact rational transcription of the CVSS v2.0 guide equations (section 3.2); ties of round_to_1_decimal accept either neighbour'],
+}
+PROPS['C10'] = {
+    'level': 'proof',
+    'pkgs': ['h30', 'h31'],
+    'text': 'v3 BaseScore / TemporalScore / EnvironmentalScore are functions of the effective metric values only (Modified metric if defined else base metric; X as the default): 2-safety decided over the complete solver-enumerated cube table (same effective class => same folded score), violations confirmed by a solver query for two concrete objects and replayed natively. ' + FP_NOTE,
+    'bounds': 'none: every pair of the 573,308,928,000 objects per version with equal effective values (v4.0 part: see C04/C10 v4 harness when present)',
+    'solvers': {'quick': ['z3'], 'thorough': ['z3']},
+    'per_harness': {'.': {'handler': 'fp_tabulate'}},
+    'technique': PROPS['C03']['technique'] + '; relational (2-safety) check over the cube table',
+}
+PROPS['C11'] = {
+    'level': 'proof',
+    'pkgs': ['h20', 'h30', 'h31'],
+    'text': 'every scoring method returns, without panicking, a finite float64 equal to k/10 for an integer k in range, accepted by Rating: decided per frontier cube on the solver-folded value, panic arms discharged by SMT. ' + FP_NOTE,
+    'bounds': 'none: all reachable objects of v2.0, v3.0, v3.1 (v4.0 when its harness is present)',
+    'solvers': {'quick': ['z3'], 'thorough': ['z3']},
+    'per_harness': {'.': {'handler': 'fp_tabulate'}},
+    'technique': PROPS['C03']['technique'],
+}
+PROPS['C12'] = {
+    'level': 'proof',
+    'pkgs': ['h20', 'h30', 'h31'],
+    'text': 'one severity step up in one (effective) metric never lowers the score: decided over the complete solver-enumerated cube table of the real scoring code (per staging level for the environmental score), violations confirmed by a solver query for two concrete objects and replayed natively. ' + FP_NOTE,
+    'bounds': 'none: all effective classes of v3.1 (3 scores), v2.0 and v3.0 (base, temporal)',
+    'solvers': {'quick': ['z3'], 'thorough': ['z3']},
+    'per_harness': {'.': {'handler': 'fp_tabulate'}},
+    'technique': PROPS['C03']['technique'] + '; relational (2-safety) check over the cube table',
+}
+PROPS['C01'] = {
+    'level': 'model_checking',
+    'pkgs': ALLV,
+    'text': 'bounded model checking of the real ParseVector against a reference recogniser written from the grammar: for every byte string up to the stated length, accept <=> grammar accepts, (object, error) nil-ness, and no panic / out-of-range index / failed type assertion on any path',
+    'bounds': 'every byte string of length <= N (N per version and tier in the evidence); longer strings are outside the claim',
+    'solvers': {'quick': ['z3'], 'thorough': ['z3', 'z3new']},
+    'timeout': {'quick': 900, 'thorough': 3600},
+}
 
 def harnesses(pid, tier, hf):
     cfg = PROPS[pid]
@@ -93,16 +138,27 @@ def load_known():
     return out
 
 
-def model_json(harness, rec, tables=None):
+def _vals(model):
     vals = {}
-    for k, v in (rec.get('model') or {}).items():
+    for k, v in (model or {}).items():
         if isinstance(v, bool):
             vals[k] = int(v)
         elif isinstance(v, (tuple, list)):
             vals[k] = int(v[1])
         else:
             vals[k] = int(v)
-    return {'harness': harness, 'label': rec.get('label'), 'kind': rec.get('kind'), 'pos': rec.get('pos'), 'values': vals, 'tables': tables or rec.get('tables') or {}}
+    return vals
+
+
+def model_json(harness, rec, tables=None):
+    d = {'harness': harness, 'label': rec.get('label'), 'kind': rec.get('kind'), 'pos': rec.get('pos'), 'values': _vals(rec.get('model')),
+         'tables': tables or rec.get('tables') or {}}
+    if rec.get('pair'):
+        d['pair'] = [_vals(m) for m in rec['pair']]
+        d['relation'] = rec.get('relation')
+        d['values'] = d['pair'][0]
+        d['why'] = rec.get('why')
+    return d
 
 
 def known_match(kf, pid, harness, rec, replay_out):
@@ -165,8 +221,13 @@ def finish(pid, tier, seed, results, exe, tmp, t0, log, write_evidence=True):
                 n_sat += 1
                 os.makedirs(rdir, exist_ok=True)
                 path = os.path.join(rdir, '%s_%d.json' % (hname.split('/')[-1].replace('.', '_'), rec['index']))
+                mj = model_json(hname, rec)
+                for pk, pv in (r.get('params') or {}).items():
+                    mj['values']['param_' + pk] = pv
+                    for pm in mj.get('pair', []):
+                        pm['param_' + pk] = pv
                 with open(path, 'w') as f:
-                    json.dump(model_json(hname, rec), f, indent=1, sort_keys=True)
+                    json.dump(mj, f, indent=1, sort_keys=True)
                 try:
                     p = subprocess.run([exe, path], stdout=subprocess.PIPE, stderr=subprocess.STDOUT, universal_newlines=True, timeout=300)
                     rc, out = p.returncode, p.stdout
@@ -213,7 +274,8 @@ def finish(pid, tier, seed, results, exe, tmp, t0, log, write_evidence=True):
                 'harnesses': [{'harness': r['harness'], 'status': r['status'], 'obligations': len(r.get('results', [])),
                                'unsat': sum(1 for x in r.get('results', []) if x['status'] == 'unsat'),
                                'exec_s': r.get('exec_s'), 'solver_s': r.get('solver_time'), 'dag_nodes': r.get('nodes'),
-                               'ssa_stats': r.get('stats'), 'inputs': r.get('inputs'), 'note': r.get('note')} for r in results],
+                               'ssa_stats': r.get('stats'), 'inputs': r.get('inputs'), 'note': r.get('note'), 'tabulation': r.get('tabulation')} for r in results],
+                'cubes': sum((r.get('tabulation') or {}).get('cubes', 0) for r in results),
                 'functions_encoded': funcs,
                 'solver_time_s': solver_time,
                 'solver_queries': queries,
